@@ -15,6 +15,7 @@ func init() {
 	register(&Spec{
 		ID: "C10",
 		Explanation: "Decides: R1 every segment of the pattern emits text or fails, in both URL builders (path query with enum exhaustion over the segment kinds); R2 strict mode writes a parameter value only behind Valid(value) of the same segment, and regexp validation is anchored at both ends (Valid) / at the start (Match); R3 with strict=true and a non-empty pattern every successful return of Router.URL passed Tree.URL; R4 a missing parameter is an error, the value is followed by the segment's suffix, the configured domain is prefixed on every path; R5 the '-' flag is stripped wherever a parameter name is set. " +
+			"R16 (= C01.R20) parameter names are remembered by the parser on every path. " +
 			"Not decided: 'fails iff malformed', and the round trip with dispatch.",
 		Assumptions: commonAssumptions,
 		Run: func(c *Ctx) {
@@ -36,6 +37,7 @@ func init() {
 			ruleConfiguredInterceptorsUsed(c, "R13")
 			ruleChainWalkEndsAtTheRoot(c, "R14")
 			ruleAdjacencyIsDecidedOnTheText(c, "R15")
+			ruleParameterNamesAreRemembered(c, "R16")
 		},
 	})
 }
